@@ -463,6 +463,8 @@ class Replay:
         except Exception as e:  # noqa: BLE001
             self.add(step, 'frame', f'parent span unreadable: {type(e).__name__}')
             return
+        if len(nowset) != len(now):
+            self.add(step, 'frame', 'a token object now occurs at two places of the document')
         before, after = now[:a], now[b + 1:]
         for name, old, new in (('before', snap['before'], before), ('after', snap['after'], after)):
             if len(old) != len(new) or any(x is not y for x, y in zip(old, new)):
